@@ -450,7 +450,9 @@ let check_single (x : qobs) input =
   (match tree with
    | Some t ->
        (match (try Some (parse_tree t) with Unmodelled _ -> None) with
-        | Some e -> check_params x input e; check_derivation x input e; check_semantics x input e
+        | Some e -> check_params x input e; check_derivation x input e;
+            (* the meaning of the query text is its parse by the model (Parse of the specification), not the implementation's own tree *)
+            check_semantics x input (match x.mtree with Some m -> m | None -> e)
         | None -> ())
    | None -> ());
   let kcls = match tree with
